@@ -5,7 +5,7 @@ sub-agent changes in seeded/<id>/patch.diff) is applied to a scratch worktree of
 VIOLATION (exit 1).  usage: tools/selftest_mutants.py [--runs N] [pattern]"""
 import glob, os, subprocess, sys, shutil
 VERIF = os.path.dirname(os.path.dirname(os.path.abspath(__file__)))
-runs = {'C01': 200, 'C07': 300, 'C10': 160, 'C11': 600, 'C12': 200, 'C13': 100, 'C14': 600,
+runs = {'C01': 250, 'C07': 300, 'C10': 160, 'C11': 600, 'C12': 900, 'C13': 260, 'C14': 700,
         'C15': 800, 'C16': 500, 'C18': 400, 'C20': 300}
 pat = sys.argv[1] if len(sys.argv) > 1 else ''
 items = []
